@@ -186,6 +186,7 @@ def builders(model):
                 axis=ax))
     PTS = [[0, 1, 0], [1, 2, 1]]         # index (0, 1) occurs twice
     for tag, k in (('discretized', dict(w='w', cv='w')),
+                   ('discretized, complex', dict(w='w', cv='w', cx=True)),
                    ('unweighted', dict()),
                    ('weighted tensor space', dict(w='w')),
                    ('discretized, weight != cell volume',
